@@ -576,6 +576,19 @@ func tamperScenario(ci int) explore.Scenario {
 					feed(wm, b, fmt.Sprintf("seed %d decrypted with a wrong key", si), true)
 				}
 			}
+			// crafted compressed records (seed c18i): well-formed zstd frames whose header claims an absurd content
+			// size and whose single raw block is empty or short - a decoder that trusts the header must not panic
+			for _, claimed := range []uint64{1 << 62, 1 << 63, ^uint64(0), 1 << 49, 1<<56 + 1} {
+				for _, payload := range [][]byte{nil, []byte("x")} {
+					fr := []byte{0x00, 'z', 0x28, 0xb5, 0x2f, 0xfd, 0xe0} // marker, compressor id, magic, descriptor: 8-byte size, single segment
+					for i := 0; i < 8; i++ {
+						fr = append(fr, byte(claimed>>(8*i)))
+					}
+					fr = append(fr, byte(1|len(payload)<<3), 0, 0) // last block, raw, size len(payload)
+					fr = append(fr, payload...)
+					feed(c.m(0), fr, fmt.Sprintf("zstd frame claiming %d bytes with a %d-byte raw block", claimed, len(payload)), false)
+				}
+			}
 			alpha := []byte{0x00, 0x01, 0x0a, 0x7a, 0xff}
 			m := c.m(0)
 			var gen func(prefix []byte)
